@@ -153,13 +153,13 @@ func keysOf(model map[string]string, prefix string) []string {
 var two64 = new(big.Int).Lsh(big.NewInt(1), 64)
 
 type refResult struct {
-	key       string
-	defined   bool   // false: the property does not define the outcome (C13's domain)
-	why       string // why undefined
-	highest   string // highest existing key of the prefix ("" if none)
-	overflow  bool   // some suffix + delta >= 2^64
-	wrapped   string // what 64-bit wrap-around arithmetic would give
-	aboveMax  bool   // highest key >= prefix-18446744073709551615
+	key      string
+	defined  bool   // false: the property does not define the outcome (C13's domain)
+	why      string // why undefined
+	highest  string // highest existing key of the prefix ("" if none)
+	overflow bool   // some suffix + delta >= 2^64
+	wrapped  string // what 64-bit wrap-around arithmetic would give
+	aboveMax bool   // highest key >= prefix-18446744073709551615
 }
 
 func isDigits(s string) bool {
